@@ -167,6 +167,118 @@ theorem wfB_facts (p : Pos) (h : wfB p = true) :
 theorem legalB_pseudo (p : Pos) (m : Mv) (h : legalB p m = true) : pseudo p m = true := by
   unfold legalB at h; simp only [Bool.and_eq_true] at h; exact h.1
 
+/-! ## the fast e.p. clause -/
+
+theorem mkSq?_self (s : Sq) : mkSq? s.x s.y = some s := by
+  unfold mkSq? Sq.x Sq.y
+  have := s.isLt
+  rw [dif_pos (by omega)]
+  congr 1
+  apply Fin.ext
+  simp only
+  omega
+
+theorem pawn_ep_diag (p : Pos) (m : Mv) (ho : own p.wtm (p.at m.f) = true)
+    (hr : pawnRule p m = true) (hs : epShape p = true) (he : p.ep = some m.t) :
+    ((m.t.x : Int) - m.f.x).natAbs = 1 ∧ (m.t.y : Int) - m.f.y = (if p.wtm then 1 else -1) := by
+  have hf := m.f.isLt
+  have ht := m.t.isLt
+  unfold epShape at hs
+  rw [he] at hs
+  unfold pawnRule promoOk dxy at hr
+  rw [gt_at] at ho
+  cases hw : p.wtm
+  · simp only [hw, Bool.false_eq_true, if_false, Bool.and_eq_true, Bool.or_eq_true, beq_iff_eq, Sq.x, Sq.y] at hs hr ho ⊢
+    obtain ⟨⟨⟨⟨s1, s2⟩, s3⟩, s4⟩, s5⟩ := hs
+    obtain ⟨r1, r2⟩ := hr
+    have hfne : m.f.val ≠ m.t.val + 8 := by
+      intro e
+      change gt p.b (m.t.val + 8) = WPAWN at s3
+      rw [e, s3] at ho
+      revert ho; decide
+    rcases r2 with (⟨⟨a, b⟩, c⟩ | ⟨⟨⟨⟨a, b⟩, c⟩, d⟩, e⟩) | ⟨⟨a, b⟩, c⟩
+    · exfalso; omega
+    · exfalso; omega
+    · exact ⟨a, b⟩
+  · simp only [hw, if_true, Bool.and_eq_true, Bool.or_eq_true, beq_iff_eq, Sq.x, Sq.y] at hs hr ho ⊢
+    obtain ⟨⟨⟨⟨s1, s2⟩, s3⟩, s4⟩, s5⟩ := hs
+    obtain ⟨r1, r2⟩ := hr
+    have hfne : m.f.val ≠ m.t.val - 8 := by
+      intro e
+      change gt p.b (m.t.val - 8) = BPAWN at s3
+      rw [e, s3] at ho
+      revert ho; decide
+    rcases r2 with (⟨⟨a, b⟩, c⟩ | ⟨⟨⟨⟨a, b⟩, c⟩, d⟩, e⟩) | ⟨⟨a, b⟩, c⟩
+    · exfalso; omega
+    · exfalso; omega
+    · exact ⟨a, b⟩
+
+theorem epCapLegal_iff (p : Pos) (e : Sq) (hs : epShape p = true) (he : p.ep = some e) :
+    ((genLegal p).any fun m => m.t == e && kind (p.at m.f) == 6) = epCapLegal p e := by
+  rw [Bool.eq_iff_iff]
+  constructor
+  · intro h
+    rw [List.any_eq_true] at h
+    obtain ⟨m, hm, hc⟩ := h
+    simp only [Bool.and_eq_true, beq_iff_eq] at hc
+    obtain ⟨hte, k6⟩ := hc
+    have hleg := (mem_genLegal p m).mp hm
+    have hp := legalB_pseudo p m hleg
+    have hp' := hp
+    rw [pseudo_pawn p m k6, Bool.and_eq_true] at hp'
+    obtain ⟨hown, _, _⟩ := preRule_facts p m hp'.1
+    have he' : p.ep = some m.t := by rw [hte]; exact he
+    obtain ⟨hpr, _⟩ := pawn_ep_facts p m hown hp'.2 hs he'
+    obtain ⟨d1, d2⟩ := pawn_ep_diag p m hown hp'.2 hs he'
+    have hm' : m = { f := m.f, t := e, promo := 0 } := by
+      cases m; simp only at hte hpr; simp [hte, hpr]
+    unfold epCapLegal
+    simp only [List.any_cons, List.any_nil, Bool.or_false, Bool.or_eq_true]
+    have hself := mkSq?_self m.f
+    rw [← hte]
+    by_cases hx : (m.f.x : Int) = (m.t.x : Int) + (-1)
+    · left
+      have : mkSq? ((m.t.x : Int) + -1) ((m.t.y : Int) - (if p.wtm then 1 else -1)) = some m.f := by
+        rw [← hself]; congr 1 <;> omega
+      rw [this]
+      simp only [Bool.and_eq_true, beq_iff_eq]
+      refine ⟨k6, ?_⟩
+      rw [hte, ← hm']; exact hleg
+    · right
+      have : mkSq? ((m.t.x : Int) + 1) ((m.t.y : Int) - (if p.wtm then 1 else -1)) = some m.f := by
+        rw [← hself]; congr 1 <;> omega
+      rw [this]
+      simp only [Bool.and_eq_true, beq_iff_eq]
+      refine ⟨k6, ?_⟩
+      rw [hte, ← hm']; exact hleg
+  · intro h
+    unfold epCapLegal at h
+    rw [List.any_eq_true] at h
+    obtain ⟨dx, _, hc⟩ := h
+    split at hc
+    · next f hf =>
+      simp only [Bool.and_eq_true, beq_iff_eq] at hc
+      rw [List.any_eq_true]
+      exact ⟨{ f := f, t := e, promo := 0 }, (mem_genLegal p _).mpr hc.2, by simp [hc.1]⟩
+    · cases hc
+
+theorem epValid_eq (p : Pos) (hs : epShape p = true) : ((fixupEP p).ep == p.ep) = epValid p := by
+  unfold epValid fixupEP
+  cases he : p.ep with
+  | none => simp [he]
+  | some e =>
+    simp only
+    rw [← epCapLegal_iff p e hs he]
+    split
+    · next h => simp [h, he]
+    · next h => simp [h]
+
+theorem wfFast_eq (p : Pos) : wfFast p = wfB p := by
+  unfold wfFast wfB
+  cases hs : epShape p
+  · simp
+  · rw [epValid_eq p hs]
+
 /-- **completeness of the oracle** -/
 theorem unMoves_complete (all : Bool) (Q : Pos) (x : UnMv) (h : Pred Q x)
     (hm : all = true ∨ x.ui.ep = none ∨ isEpUn Q x = true) : x ∈ unMoves all Q := by
@@ -229,7 +341,7 @@ theorem unMoves_complete (all : Bool) (Q : Pos) (x : UnMv) (h : Pred Q x)
     simp only [Bool.and_eq_true, beq_iff_eq]
     refine ⟨⟨⟨⟨?_, ?_⟩, ?_⟩, ?_⟩, ?_⟩
     · rw [c1]; exact hp
-    · rw [c3]; exact hwf
+    · rw [wfFast_eq, c3]; exact hwf
     · rw [c2]; exact hleg
     · rw [c4]; exact hq
     · rw [c5]; exact hui.symm
